@@ -34,6 +34,9 @@ type Prophet struct {
 	peerPredictabilities map[bpv7.EndpointID]map[bpv7.EndpointID]float64
 	// dataMutex is a RW-mutex which protects change operations to the algorithm's metadata
 	dataMutex sync.RWMutex
+	// failureMutex serializes ReportFailure, which is called from one goroutine per ConvergenceSender and
+	// performs a read-modify-write on the bundle's store item.
+	failureMutex sync.Mutex
 	// config contains the values for prophet constants
 	config ProphetConfig
 }
@@ -382,6 +385,9 @@ func (prophet *Prophet) SenderForBundle(bp BundleDescriptor) (sender []cla.Conve
 }
 
 func (prophet *Prophet) ReportFailure(bp BundleDescriptor, sender cla.ConvergenceSender) {
+	prophet.failureMutex.Lock()
+	defer prophet.failureMutex.Unlock()
+
 	bundleItem, err := prophet.c.store.QueryId(bp.Id)
 	if err != nil {
 		log.WithFields(log.Fields{
